@@ -212,6 +212,61 @@ func checkC09(c *Check) {
 		}
 	}
 
+	// ---- K3d: the recipient is recorded only once the next hop accepted it
+	c.Rule("K3d", "an accepting method that forwards the recipient records it only after the inner Rcpt/AddRcpt succeeded (never on its error edge)", 3)
+	for _, fv := range listFields {
+		for i, st := range p.FieldStores(fv) {
+			top := topFunc(st.Parent())
+			if top.Name() != "AddRcpt" && top.Name() != "Rcpt" {
+				continue
+			}
+			fn, _ := top.Object().(*types.Func)
+			fi := p.DeclOf(fn)
+			if fi == nil {
+				continue
+			}
+			r := &RuleCtx{C: c, FI: fi, F: p.FlowOfFunc(fi), Info: fi.Info()}
+			info := r.Info
+			storePt, found := r.F.PtOf(st.Pos())
+			if !found {
+				continue
+			}
+			inner := func(info *types.Info, call *ast.CallExpr) bool {
+				m := methodName(call)
+				if m != "Rcpt" && m != "AddRcpt" {
+					return false
+				}
+				// a call on something else than the method's own receiver
+				return callee(info, call) != fn
+			}
+			calls := r.Calls(inner)
+			if len(calls) == 0 {
+				continue // nothing is forwarded (e.g. the queue's own delivery)
+			}
+			msg := ""
+			// the append comes after some forwarding call on every path …
+			if ok, w := r.MustPass(r.Entry(), true, isPt([]Pt{storePt}), isPt(calls)); !ok {
+				msg = "the recipient is recorded before the next hop was asked: " + w
+			}
+			// … and is unreachable on the error edge of each of them (within the same iteration)
+			for _, cp := range calls {
+				call := r.CallAt(cp, inner)
+				eo := errVarAssigned(info, cp.Node(), call)
+				if eo == nil {
+					// `return f(x)` / error not bound: then the store must not precede it either (checked above) and cannot follow it
+					if _, f := r.F.Reach(Query{From: []Pt{cp}, Target: isPt([]Pt{storePt}), Avoid: isPt(calls)}); f {
+						msg = "the recipient is recorded without looking at the result of the inner " + methodName(call)
+					}
+					continue
+				}
+				if path, f := r.F.ReachRefined(cp, eo, false, false, isPt([]Pt{storePt}), isPt(calls)); f {
+					msg = "the recipient is recorded although the next hop refused it: later per-recipient results are matched against a list that contains recipients the next hop never accepted (statuses shift to the wrong recipient): " + r.F.Describe(path)
+				}
+			}
+			c.Hold("K3d", fi.Name()+":"+fv.Name()+":store"+itoa(i+1), st.Pos(), msg == "", msg)
+		}
+	}
+
 	// ---- K3b: status-all loops are final; skip counters advance
 	c.Rule("K3b", "in a BodyNonAtomic implementation a loop that reports a status for all recipients is followed by return before any other status is reported", 3)
 	c.Rule("K3c", "a counter used to skip already-reported recipients (`list[k:]`) is advanced exactly once on every path of the reporting callback", 1)
@@ -489,6 +544,70 @@ func c09Translate(c *Check, pc *provCtx, sites []statusSite) {
 			return true
 		})
 		c.Hold("K4", "msgpipelineDelivery.AddRcpt:reverse-table", r.FI.Decl.Pos(), okWrite, "the rewritten address handed to the target is not recorded in the reverse table (results of rewritten recipients cannot be reported under the client's address)")
+	}
+	// (a2) every partial target below the pipeline receives a fresh translating collector that wraps the collector
+	// this pipeline was given (each rewriting level adds exactly one reverse lookup)
+	if r := c.In(pipelineRel, "msgpipelineDelivery", "BodyNonAtomic"); r != nil {
+		info := r.Info
+		var cParam types.Object
+		for _, o := range paramObjs(r.FI) {
+			if typeIs(o.Type(), modulePkg, "StatusCollector") {
+				cParam = o
+			}
+		}
+		isWrapLit := func(e ast.Expr) bool {
+			cl, ok := ast.Unparen(e).(*ast.CompositeLit)
+			if !ok || namedOf(info.TypeOf(cl)) == nil || namedOf(info.TypeOf(cl)).Obj().Name() != "statusCollector" {
+				return false
+			}
+			okW, okT := false, false
+			for _, el := range cl.Elts {
+				if kv, ok := el.(*ast.KeyValueExpr); ok {
+					if id, ok := kv.Key.(*ast.Ident); ok {
+						if id.Name == "wrapped" && objOf(info, kv.Value) == cParam && cParam != nil {
+							okW = true
+						}
+						if id.Name == "originalRcpts" && isField(info, kv.Value, "MsgMetadata", "OriginalRcpts") {
+							okT = true
+						}
+					}
+				}
+			}
+			return okW && okT
+		}
+		msg := "no partial target is handed a collector"
+		ast.Inspect(r.FI.Decl.Body, func(n ast.Node) bool {
+			call, ok := n.(*ast.CallExpr)
+			if !ok || methodName(call) != "BodyNonAtomic" || len(call.Args) != 4 {
+				return true
+			}
+			msg = ""
+			arg := call.Args[1]
+			ok2 := isWrapLit(arg)
+			if o := objOf(info, arg); o != nil && !ok2 {
+				// a local: every definition must be such a literal
+				all, n := true, 0
+				ast.Inspect(r.FI.Decl.Body, func(x ast.Node) bool {
+					if as, ok := x.(*ast.AssignStmt); ok {
+						for i, l := range as.Lhs {
+							if objOf(info, l) == o {
+								n++
+								if len(as.Rhs) != len(as.Lhs) || !isWrapLit(as.Rhs[i]) {
+									all = false
+								}
+							}
+						}
+					}
+					return true
+				})
+				ok2 = all && n > 0
+			}
+			if !ok2 {
+				msg = "a per-recipient target below the pipeline is not given a fresh translating collector around the caller's collector: in a nested pipeline the rewrite of this level is never translated back (a two-step rewrite A→B→C is reported under B, which the caller does not know)"
+			}
+			return true
+		})
+		c.Hold("K4", "msgpipelineDelivery.BodyNonAtomic:fresh-translator", r.FI.Decl.Pos(), msg == "", msg)
 	}
 	// (b) already-translated keys must not go through the translating collector
 	var scT *types.Named
